@@ -313,14 +313,16 @@ def dup (k : K) (fd min : Nat) (cloexec : Bool) : Res Nat :=
       | none => .err .EMFILE
       | some n => .ok n { k with fds := setFd k.fds n (some { ofd := e.ofd, cloexec := cloexec }) }
 
-/-- `dup2(a, b)`: EBADF if `a` is not open or `b` is not below the limit; `dup2(a, a)` changes nothing;
-    otherwise `b` shares `a`'s open file description and has FD_CLOEXEC clear -/
+/-- `dup2(a, b)`: EBADF if `a` is not open; `dup2(a, a)` on an open descriptor changes nothing — Linux does not
+    look at the limit then, so it also succeeds for a descriptor that was opened before the limit was lowered
+    below it (found by the `X` cases: `setlim 6; dup2 6 6`); otherwise EBADF if `b` is not below the limit, else
+    `b` shares `a`'s open file description and has FD_CLOEXEC clear -/
 def dup2 (k : K) (a b : Nat) : Res Nat :=
   match k.fds a with
   | none => .err .EBADF
   | some e =>
-    if b ≥ k.limit then .err .EBADF
-    else if a = b then .ok b k
+    if a = b then .ok b k
+    else if b ≥ k.limit then .err .EBADF
     else .ok b { k with fds := setFd k.fds b (some { ofd := e.ofd, cloexec := false }) }
 
 /-- `Close::close` (the trait reports an unopened descriptor as success) -/
